@@ -151,7 +151,9 @@ def quat_ok(p, q):
     if not got[3] >= 0:  # w >= 0 after the import (-0.0 counts as zero)
         return False
     close = lambda r: all(ulp_close(x, y, 4) or abs(x - y) <= 4e-16 for x, y in zip(r, got))  # noqa: E731
-    return close(ref) if ref[3] > 0 else close(-ref) if ref[3] < 0 else (close(ref) or close(-ref))
+    # a scalar part of +0.0 or -0.0 is "not negative" (IEEE: -0.0 >= 0.0): the line's own numbers are kept, not their negation
+    # (decided on the scalar part as written on the line: a negative denormal underflows to -0.0 in `ref` but is still negative)
+    return close(ref) if v[3] >= 0 else close(-ref)
 
 
 def expressible(g):
@@ -512,7 +514,7 @@ def check_file(text, label=""):
     return None, True
 
 
-CUSTOM_TAGS = [("EDGE_DIST", 2, 1, 1), ("EDGE_PRIOR_XY", 1, 2, 2), ("EDGE_TRIPLE", 3, 1, 1), ("MY:EDGE", 2, 3, 3)]
+CUSTOM_TAGS = [("EDGE_DIST", 2, 1, 1), ("EDGE_PRIOR_XY", 1, 2, 2), ("EDGE_TRIPLE", 3, 1, 1), ("MY:EDGE", 2, 3, 3), ("EDGE_SE2", 2, 3, 3)]  # the last one takes over a built-in tag
 
 
 def check_custom_file(rng, label=""):
@@ -553,9 +555,12 @@ def check_custom_file(rng, label=""):
         text = "\n".join(merged) + "\n"
     else:
         text = "\n".join(lines + [b[1] for b in body]) + "\n"
+    shadow = next((c_ for c_ in registered if c_.SPEC[0] == "EDGE_SE2"), None)
     for kind, line, c, ids, nums in body:
-        if kind == "std":
-            expect.append((EdgeOdometry, ids, nums))
+        if kind == "std" or (c is not None and c.SPEC[0] == "EDGE_SE2"):
+            # registered custom types are tried first: a registered type that accepts the EDGE_SE2 tag gets these lines,
+            # otherwise the built-in odometry reader does
+            expect.append((shadow if shadow is not None else EdgeOdometry, ids, nums))
         elif c in registered:
             expect.append((c, ids, nums))
         else:
